@@ -1,5 +1,7 @@
 //! C14 driver: kernel_gauss / kernel_lanczos of yamaquasi::matrix::gf2 on
-//!  * explicit small matrices printed by spec/gf2/Gf2Gen.tla (`--mats`), and
+//!  * explicit small matrices printed by spec/gf2/Gf2Gen.tla (`--mats`),
+//!  * every matrix of a few tiny dimensions together with the result of the model
+//!    spec/gf2/Gf2Kernel.tla on it (`--model`), and
 //!  * matrices built here, with seeded randomness, from the abstract shapes enumerated by
 //!    spec/gf2/Gf2Shapes.tla (`--shapes`): rows, columns, planted corank, density profile,
 //!    zero / duplicate columns.
@@ -283,10 +285,42 @@ fn independence_certificate(k: &[Vec<usize>], n: usize) -> Value {
 }
 
 fn gauss_event(out: &mut Out, case: &str, sh: &Value, mat: &Mat, deadline: f64) {
-    let (nrows, ncols) = (mat.nrows, mat.cols.len());
-    let base = json!({"op": "kernel_gauss", "case": case, "shape": sh, "nrows": nrows, "ncols": ncols, "m": mat.cols});
-    let cols = mat.cols.clone();
+    let (nrows, cols) = (mat.nrows, mat.cols.clone());
     let r = guard_deadline(deadline, move || call_gauss(kernel_gauss, nrows, &cols));
+    gauss_emit(out, case, sh, mat, None, r)
+}
+
+/// Many tiny matrices: one guarded thread per chunk instead of one per call (each call still has its
+/// own panic guard); if a chunk does not come back, its matrices are redone one by one.
+fn gauss_batch(out: &mut Out, items: &[(String, Value, Mat, Option<Value>)], deadline: f64) {
+    for chunk in items.chunks(256) {
+        let inputs: Vec<(usize, Vec<Vec<usize>>)> = chunk.iter().map(|it| (it.2.nrows, it.2.cols.clone())).collect();
+        let res = guard_deadline(deadline, move || {
+            inputs.iter().map(|(nrows, cols)| guard(|| call_gauss(kernel_gauss, *nrows, cols))).collect::<Vec<_>>()
+        });
+        match res {
+            Ok(rs) => {
+                for (it, r) in chunk.iter().zip(rs.into_iter()) {
+                    gauss_emit(out, &it.0, &it.1, &it.2, it.3.as_ref(), r);
+                }
+            }
+            Err(_) => {
+                for it in chunk {
+                    let (nrows, cols) = (it.2.nrows, it.2.cols.clone());
+                    let r = guard_deadline(deadline, move || call_gauss(kernel_gauss, nrows, &cols));
+                    gauss_emit(out, &it.0, &it.1, &it.2, it.3.as_ref(), r);
+                }
+            }
+        }
+    }
+}
+
+fn gauss_emit(out: &mut Out, case: &str, sh: &Value, mat: &Mat, expect: Option<&Value>, r: Result<Vec<Vec<usize>>, Value>) {
+    let (nrows, ncols) = (mat.nrows, mat.cols.len());
+    let mut base = json!({"op": "kernel_gauss", "case": case, "shape": sh, "nrows": nrows, "ncols": ncols, "m": mat.cols});
+    if let Some(x) = expect {
+        base = merge(base, json!({"expect": x}));
+    }
     let k = match r {
         Ok(k) => k,
         Err(o) => {
@@ -339,11 +373,26 @@ pub fn run(args: &Args) -> i32 {
     let mut skipped = 0;
     // explicit small matrices from the TLA+ generator
     if let Some(p) = args.get("mats") {
-        for (i, m) in read_ndjson(p).iter().enumerate() {
-            let mat = explicit(m);
-            let info = json!({"gen": m["name"], "corank": m["corank"]});
-            gauss_event(&mut out, &format!("gen/{}/{}", i, m["name"].as_str().unwrap_or("?")), &info, &mat, deadline);
-        }
+        let items: Vec<(String, Value, Mat, Option<Value>)> = read_ndjson(p)
+            .iter()
+            .enumerate()
+            .map(|(i, m)| {
+                (format!("gen/{}/{}", i, m["name"].as_str().unwrap_or("?")), json!({"gen": m["name"], "corank": m["corank"]}), explicit(m), None)
+            })
+            .collect();
+        gauss_batch(&mut out, &items, deadline);
+    }
+    // terminal behaviours of the model Gf2Kernel (matrix + the family the model returns)
+    if let Some(p) = args.get("model") {
+        let items: Vec<(String, Value, Mat, Option<Value>)> = read_ndjson(p)
+            .iter()
+            .enumerate()
+            .map(|(i, m)| {
+                let mat = explicit(m);
+                (format!("model/{}x{}/{}", mat.nrows, mat.cols.len(), i), json!({"gen": "model"}), mat, Some(m["expect"].clone()))
+            })
+            .collect();
+        gauss_batch(&mut out, &items, deadline);
     }
     // abstract shapes concretised here
     if let Some(p) = args.get("shapes") {
